@@ -3,7 +3,7 @@ Helpers for Proofs/SrcEqRule.lean: an invariant rule for the `loopR` loops of th
 the fact that the index returned by `Src.binary_search_i64` is not negative, so that the `Int` index of
 the source and the `Nat` index of the model (`BS.upper`) agree.
 -/
-import TzVerif.Generated.Src
+import TzVerif.SrcBase
 import TzVerif.Model.Rule
 import TzVerif.Proofs.SrcEqCal
 
